@@ -185,8 +185,11 @@ def shape_sig(sch, deps):
     return repr(sorted((sch.by_name[n].kind, sorted(sch.by_name[x].kind for x in d)) for n, d in deps.items()))
 
 
-def compile_perm(stepper, wd, idx, sch, order, budget):
+def compile_perm(stepper, wd, idx, sch, order, budget, inc_name=None):
     xml, patch = S.to_isar(sch, order=order)
+    if inc_name:
+        # an included file that happens to be called like one of the types defined here (and defines something else)
+        xml = xml.replace('<x>', '<x xmlns:xi="http://www.w3.org/2001/XInclude">\n<xi:include href="%s.xml"/>' % inc_name, 1)
     d = os.path.join(wd, 'p%d' % idx)
     pkg = 'c15p%d_%d' % (os.getpid(), idx)
     pkgdir = os.path.join(d, pkg)
@@ -200,12 +203,21 @@ def compile_perm(stepper, wd, idx, sch, order, budget):
         with open(os.path.join(d, 'sch.patch'), 'w') as f:
             f.write(patch)
         args += ['--patch', os.path.join(d, 'sch.patch')]
+    if inc_name:
+        with open(os.path.join(d, inc_name + '.xml'), 'w') as f:
+            f.write('<x><struct name="ZzUnrelated"><member name="a" type="u8"/></struct></x>\n')
+        args.append(os.path.join(d, inc_name + '.xml'))
     exc, steps, nodes = pc.run_main(args + [main], stepper, budget)
     return exc, steps, nodes, xml, d, pkg
 
 
 def check_perm(acc, stepper, calib, wd, idx, sch, deps, order, w, ref_layouts, exhaustive):
-    exc, steps, nodes, xml, d, pkg = compile_perm(stepper, wd, idx, sch, order, 30 * calib + 4000 * len(order) * 200)
+    typenames = [n for n in order if sch.by_name[n].kind in ('struct', 'union', 'enum', 'typedef')]
+    inc_name = typenames[idx % len(typenames)] if typenames and idx % 4 == 0 else None
+    if inc_name:
+        acc.count('permutations_with_an_include_named_like_a_local_type')
+    exc, steps, nodes, xml, d, pkg = compile_perm(stepper, wd, idx, sch, order, 30 * calib + 4000 * len(order) * 200,
+                                                  inc_name)
     acc.ev()
     acc.count('permutations_compiled')
 
@@ -220,7 +232,7 @@ def check_perm(acc, stepper, calib, wd, idx, sch, deps, order, w, ref_layouts, e
                       witness(error='%s: %s' % (type(exc).__name__, str(exc)[:500])))
         return None
     import prophyc.model as M
-    lst = nodes['sch']
+    lst = [n for n in nodes['sch'] if not isinstance(n, M.Include)]
     names = [n.name for n in lst]
     if sorted(names) != sorted(order):
         acc.violation(PROP, 'output-is-not-a-permutation-of-the-definitions', witness(output=names))
